@@ -44,8 +44,28 @@ func (e *eventStream) Receive(c *Context) {
 			level, msg, attr := logMsg.Log()
 			slog.Log(context.Background(), level, msg, attr...)
 		}
-		for _, sub := range e.subs {
+		for key, sub := range e.subs {
+			// A subscriber that cannot be reached from this engine any more is
+			// dropped: this forward surfaces as one DeadLetterEvent (or
+			// EngineRemoteMissingEvent), later events are not sent to it. Keeping it
+			// would feed that event back to it, and so on without end.
+			if unreachable(c.engine, sub) {
+				delete(e.subs, key)
+			}
 			c.Forward(sub)
 		}
 	}
+}
+
+// unreachable reports whether a message sent to pid can only come back as an
+// event: a local PID that is not registered (any more), or a foreign PID on an
+// engine without a remote.
+func unreachable(e *Engine, pid *PID) bool {
+	if pid == nil {
+		return false
+	}
+	if e.isLocalMessage(pid) {
+		return e.Registry.get(pid) == nil
+	}
+	return e.remote == nil
 }
